@@ -72,8 +72,25 @@ def run(chk: Check, repo: Repo) -> None:
     chk.ob("no-recursion", entry.site(), not mr.recursive, f"no call-graph cycle below the entry (recursive functions met: {sorted(mr.recursive)})", key="no-recursion")
     loops = [(f, n) for ref in mr.functions_analysed for f in [next((x for x in repo.all_functions() if x.ref == ref), None)] if f is not None for n in walk_local(f.node) if isinstance(n, ast.While)]
     chk.ob("no-unbounded-loop", entry.site(), not loops, f"`while` loops in the {len(mr.functions_analysed)} functions below the entry: {[f.qualname for f, _ in loops]}", key="no-while-loops")
-    # consequence: the last-resort guards are dead
-    h = repo.func("xknx.cemi.cemi_handler", "CEMIHandler.handle_raw_cemi")
-    chk.unit(h)
+    # consequence: the receive handlers' last-resort guards are dead code
+    from ..mayraise import _FuncAnalysis
+    n_guards = 0
+    for hm, hq in (("xknx.cemi.cemi_handler", "CEMIHandler.handle_raw_cemi"), ("xknx.io.device_management_connection", "_DeviceManagementConnection._cemi_received")):
+        h = repo.func(hm, hq)
+        chk.unit(h)
+        an = _FuncAnalysis(mr, h, h.cls)
+        for t in walk_local(h.node):
+            if not (isinstance(t, ast.Try) and any(call_name(c) == "CEMIFrame.from_knx" for s in t.body for c in calls(s))):
+                continue
+            last = [i for i, hd in enumerate(t.handlers) if hd.type is None or ast.unparse(hd.type) in ("Exception", "BaseException")]
+            if not last:
+                continue
+            n_guards += 1
+            body = an.block(t.body, None)
+            named = [ast.unparse(x).split(".")[-1] for hd in t.handlers[: last[0]] for x in (hd.type.elts if isinstance(hd.type, ast.Tuple) else [hd.type])]
+            left = sorted({f"{e.exc} from `{e.stmt}` in {e.func}" for e in body if not any(mr.is_sub(e.exc, n) for n in named)
+                           and e.key not in address_reviewed(repo, ("xknx.cemi.cemi_frame",))})
+            chk.ob("last-resort-guard-is-dead", h.site(t), not left, f"{hq}: everything the guarded region can raise is caught by the specific handlers {named}; reaching `except Exception`: {left or 'nothing'}", key=f"last-resort|{hq}")
+    chk.floor("receive handlers with a last-resort guard", n_guards, 2)
     chk.rule("E1 may-raise analysis (interprocedural, handler subtraction over the exception class table, guard-based discharge from CFG must-facts and mypy types) of CEMIFrame.from_knx; E11 no recursion / no while-loop below the entry")
     finish(chk, mr)
